@@ -7,7 +7,7 @@ import BufModel.Disk
 namespace BufModel.Disk
 open BufModel.Path BufModel.Bucket
 
-theorem mem_addDirs (ds as : List Key) (x : Key) : x ∈ addDirs ds as ↔ x ∈ ds ∨ x ∈ as := by
+theorem mem_addDirs_iff (ds as : List Key) (x : Key) : x ∈ addDirs ds as ↔ x ∈ ds ∨ x ∈ as := by
   induction as generalizing ds with
   | nil => simp [addDirs]
   | cons a rest ih =>
@@ -36,7 +36,7 @@ theorem mem_addDirs (ds as : List Key) (x : Key) : x ∈ addDirs ds as ↔ x ∈
           · subst e; exact Or.inl (List.mem_cons_self ..)
           · exact Or.inr h
 
-theorem mem_ancestors (k x : Key) : x ∈ ancestors k → ∃ n, 0 < n ∧ n < k.length ∧ x = k.take n := by
+theorem mem_ancestors_take (k x : Key) : x ∈ ancestors k → ∃ n, 0 < n ∧ n < k.length ∧ x = k.take n := by
   intro h
   unfold ancestors at h
   obtain ⟨n, hn, hx⟩ := List.mem_filterMap.mp h
